@@ -1,7 +1,7 @@
 """C14 — formatting preserves the program and is idempotent."""
 import re, json
 from .. import core, corpus
-from ..gen import grel, gexpr
+from ..gen import grel, gexpr, gfeat
 
 FEATURES = [
     "from t | select {x = 1.0, y = 1e3, z = 2.50, w = 1_000.5, v = 0.1e-2}",
@@ -38,14 +38,15 @@ FEATURES = [
 def sources(tier, seed):
     rng = core.shard_rng(seed, "C14", 0)
     out = [(s, "feature") for s in FEATURES] + [(s, "corpus") for s in corpus.sources()]
-    n_rel = 300 if tier == "quick" else 8000
+    out += [(src, "gfeat") for _, src in gfeat.programs() if len(src) < 3000]
+    n_rel = 1500 if tier == "quick" else 8000
     for prof in ("core", "window", "project"):
         out += [(grel.random_program_text(rng, prof), "grel") for _ in range(n_rel // 3)]
     # every operator nesting + unary adjacency, minimal and full parentheses
     for (tr, e) in gexpr.all_triples() + gexpr.unary_triples():
         for mode in ("min", "full"):
             out.append(("from t | derive {x = %s}" % gexpr.pp(e, mode), "triple"))
-    n_expr = 1500 if tier == "quick" else 60000
+    n_expr = 6000 if tier == "quick" else 60000
     for _ in range(n_expr):
         e = gexpr.random_tree(rng, rng.randint(2, 5), ops=gexpr.BINOPS)
         mode = "min" if rng.random() < 0.7 else "full"
